@@ -1,7 +1,10 @@
 package props
 
 import (
+	"fmt"
 	"go/token"
+	"go/types"
+	"regexp"
 	"strings"
 
 	"golang.org/x/tools/go/ssa"
@@ -287,6 +290,7 @@ func init() {
 			})
 			callableRules(c)
 			packageCall(c)
+			reflectKinds(c, "callable.go")
 			c.errPolarity("Call")
 			out := c.sel(func(o *an.Oblig) bool { return isUndecided(o) || o.Rule == "ANCHOR" })
 			return append(out, c.C.List...)
@@ -378,3 +382,500 @@ func packageCall(c *Ctx) {
 		m.add("PATH", "MustCall panics iff Call returned an error", okp, pickS(okp, "panic only through err != nil, and always then", "MustCall can swallow an error or panic without one"), pans...)
 	}
 }
+
+// reflectKinds (RK): reflect methods that panic unless the receiver has a certain kind (Elem, IsNil, Call, NumIn, ...)
+// are reached only where that kind was established: through the matching edge of a Kind() comparison on the same
+// reflect expression, or by construction (reflect.New / MakeFunc / MakeSlice, ValueOf of a statically typed operand).
+// This is the structural part of "Call never panics on its own account" for the validation code.
+var rkAllowed = map[string][]string{
+	"(reflect.Value).Elem":           {"Interface", "Pointer"},
+	"(reflect.Value).IsNil":          {"Chan", "Func", "Interface", "Map", "Pointer", "Slice", "UnsafePointer"},
+	"(reflect.Value).Call":           {"Func"},
+	"(reflect.Value).Len":            {"Array", "Chan", "Map", "Slice", "String"},
+	"(reflect.Value).Index":          {"Array", "Slice", "String"},
+	"invoke:reflect.Type.NumIn":      {"Func"},
+	"invoke:reflect.Type.NumOut":     {"Func"},
+	"invoke:reflect.Type.In":         {"Func"},
+	"invoke:reflect.Type.Out":        {"Func"},
+	"invoke:reflect.Type.IsVariadic": {"Func"},
+	"invoke:reflect.Type.Elem":       {"Array", "Chan", "Map", "Pointer", "Slice"},
+	"invoke:reflect.Type.ChanDir":    {"Chan"},
+	"reflect.Append":                 {"Slice"},
+}
+
+// rkExempt: receivers whose kind is established elsewhere, with the obligation that establishes it.
+var rkExempt = map[string]string{
+	"F:callConfig.this": "callConfig.this is stored only by Call, from caller.Type(), and the options run only through Kind() == Func (obligations WR/PATH callConfig.this)",
+}
+
+func reflectKinds(c *Ctx, inFile string) {
+	P := c.P
+	kindConst := func(v ssa.Value) (string, bool) {
+		cv, ok := constInt(v)
+		if !ok {
+			return "", false
+		}
+		if n, isN := v.Type().(*types.Named); !isN || n.Obj().Name() != "Kind" {
+			return "", false
+		}
+		for _, k := range []string{"Invalid", "Bool", "Array", "Chan", "Func", "Interface", "Map", "Pointer", "Slice", "String", "Struct", "UnsafePointer"} {
+			if x, okc := P.PkgConstInt("reflect", k); okc && x == cv {
+				return k, true
+			}
+		}
+		return "?", true
+	}
+	var key func(v ssa.Value, d int) string
+	key = func(v ssa.Value, d int) string {
+		if d > 8 {
+			return "?"
+		}
+		srcs := P.Sources(v)
+		if len(srcs) == 1 {
+			v = srcs[0]
+		}
+		switch x := v.(type) {
+		case *ssa.Call:
+			n := P.CalleeName(&x.Call)
+			switch n {
+			case "(reflect.Value).Elem":
+				return key(x.Call.Args[0], d+1) + ".Elem"
+			case "invoke:reflect.Type.Elem":
+				return key(x.Call.Value, d+1) + ".Elem"
+			case "(reflect.Value).Type":
+				return key(x.Call.Args[0], d+1)
+			case "reflect.ValueOf", "reflect.TypeOf":
+				return "of(" + key(x.Call.Args[0], d+1) + ")"
+			}
+			return x.Name() + "@" + an.FuncName(x.Parent())
+		case *ssa.UnOp:
+			if x.Op == token.MUL {
+				if f := an.FieldOfAddr(x.X); f != "" {
+					return "F:" + f
+				}
+				if ia, isIA := x.X.(*ssa.IndexAddr); isIA {
+					return "elem(" + key(ia.X, d+1) + ")" // any element: the validation loops return on the first bad one
+				}
+			}
+		case *ssa.FreeVar:
+			// the captured variable of the enclosing function
+			if par := x.Parent().Parent(); par != nil {
+				for _, in := range an.AllInstrs(par, func(in ssa.Instruction) bool { _, ok := in.(*ssa.MakeClosure); return ok }) {
+					mc := in.(*ssa.MakeClosure)
+					if mc.Fn == ssa.Value(x.Parent()) {
+						for i, fv := range x.Parent().FreeVars {
+							if fv == x && i < len(mc.Bindings) {
+								b := mc.Bindings[i]
+								if al, isAl := b.(*ssa.Alloc); isAl {
+									// a captured cell: its (only) stored value
+									if sts := P.CellStores(al); len(sts) == 1 {
+										return key(sts[0].Val, d+1)
+									}
+								}
+								return key(b, d+1)
+							}
+						}
+					}
+				}
+			}
+		case *ssa.Parameter:
+			return "P:" + x.Name() + "@" + an.FuncName(x.Parent())
+		case *ssa.MakeInterface:
+			return key(x.X, d+1)
+		}
+		return v.Name() + "@" + an.FuncName(valueParent(v))
+	}
+	byConstruction := func(v ssa.Value, allowed []string) bool {
+		has := func(k string) bool {
+			for _, a := range allowed {
+				if a == k {
+					return true
+				}
+			}
+			return false
+		}
+		for _, s := range P.Sources(v) {
+			call, ok := s.(*ssa.Call)
+			if !ok {
+				return false
+			}
+			switch P.CalleeName(&call.Call) {
+			case "reflect.New":
+				if !has("Pointer") {
+					return false
+				}
+			case "reflect.MakeFunc":
+				if !has("Func") {
+					return false
+				}
+			case "reflect.MakeSlice", "reflect.Append":
+				if !has("Slice") {
+					return false
+				}
+			case "reflect.ValueOf", "reflect.TypeOf":
+				mi, isMI := call.Call.Args[0].(*ssa.MakeInterface)
+				if !isMI {
+					return false
+				}
+				k := ""
+				switch mi.X.Type().Underlying().(type) {
+				case *types.Signature:
+					k = "Func"
+				case *types.Pointer:
+					k = "Pointer"
+				case *types.Slice:
+					k = "Slice"
+				case *types.Map:
+					k = "Map"
+				case *types.Chan:
+					k = "Chan"
+				}
+				if k == "" || !has(k) {
+					return false
+				}
+			default:
+				return false
+			}
+		}
+		return true
+	}
+	n := 0
+	collect := func(fn *ssa.Function) []struct {
+		ifi  *ssa.If
+		succ int
+		kind string
+		key  string
+	} {
+		type ktest = struct {
+			ifi  *ssa.If
+			succ int
+			kind string
+			key  string
+		}
+		var tests []ktest
+		ifs, negs := P.IfsOn(fn, func(cond ssa.Value) bool {
+			b, ok := cond.(*ssa.BinOp)
+			if !ok || (b.Op != token.EQL && b.Op != token.NEQ) {
+				return false
+			}
+			_, kx := kindConst(b.X)
+			_, ky := kindConst(b.Y)
+			return kx != ky
+		})
+		for i, ifi := range ifs {
+			b := stripNotV(ifi.Cond).(*ssa.BinOp)
+			kv, other := b.Y, b.X
+			if _, isK := kindConst(b.X); isK {
+				kv, other = b.X, b.Y
+			}
+			kname, _ := kindConst(kv)
+			var recv ssa.Value
+			for _, s := range P.Sources(other) {
+				if call, isC := s.(*ssa.Call); isC {
+					switch P.CalleeName(&call.Call) {
+					case "(reflect.Value).Kind":
+						recv = call.Call.Args[0]
+					case "invoke:reflect.Type.Kind":
+						recv = call.Call.Value
+					}
+				}
+			}
+			if recv == nil {
+				continue
+			}
+			eq := 0
+			if negs[i] {
+				eq = 1
+			}
+			if b.Op == token.NEQ {
+				eq = 1 - eq
+			}
+			tests = append(tests, ktest{ifi, eq, kname, key(recv, 0)})
+		}
+		return tests
+	}
+	for _, fn := range P.Funcs {
+		if !strings.Contains(P.Pos(fn.Pos()), inFile) {
+			continue
+		}
+		q := &fq{c: c, fn: fn, name: an.FuncName(fn)}
+		tests := collect(fn)
+		for _, in := range an.AllInstrs(fn, func(in ssa.Instruction) bool {
+			cc := an.CallCommonOf(in)
+			return cc != nil && rkAllowed[P.CalleeName(cc)] != nil
+		}) {
+			cc := an.CallCommonOf(in)
+			name := P.CalleeName(cc)
+			allowed := rkAllowed[name]
+			recv := cc.Value
+			if !cc.IsInvoke() {
+				recv = cc.Args[0]
+			}
+			k := key(recv, 0)
+			ok, why := false, ""
+			switch {
+			case byConstruction(recv, allowed):
+				ok, why = true, "the receiver's kind follows from how it was made"
+			case rkExempt[k] != "":
+				ok, why = true, rkExempt[k]
+			default:
+				for _, t := range tests {
+					if t.key != k {
+						continue
+					}
+					for _, a := range allowed {
+						if a == t.kind && q.onlyViaEdge(in, t.ifi, t.succ) {
+							ok, why = true, "reached only through Kind() == reflect."+a
+						}
+					}
+				}
+				// established by an enclosing function before this closure was created: the creation site of each closure on
+				// the way is reachable only through the matching edge of a Kind() comparison on the same expression
+				child := fn
+				for anc := fn.Parent(); !ok && anc != nil; child, anc = anc, anc.Parent() {
+					aq := &fq{c: c, fn: anc, name: an.FuncName(anc)}
+					var sites []ssa.Instruction
+					for _, mi := range an.AllInstrs(anc, func(in ssa.Instruction) bool { _, ok := in.(*ssa.MakeClosure); return ok }) {
+						if mi.(*ssa.MakeClosure).Fn == ssa.Value(child) {
+							sites = append(sites, mi)
+						}
+					}
+					for _, t := range collect(anc) {
+						if t.key != k || len(sites) == 0 {
+							continue
+						}
+						for _, a := range allowed {
+							if a != t.kind {
+								continue
+							}
+							all := true
+							for _, st := range sites {
+								// the failing edge never leads to the creation site (the test may sit in a validation loop)
+								// (a test inside a helper that is analysed as part of anc hands its verdict back through a result,
+								// which a path query cannot follow: there only reachability through the matching edge is required)
+								inHelper := an.Host(t.ifi.Parent()) != t.ifi.Parent()
+								if (!inHelper && P.PathExists(anc, t.ifi, an.Is(st), nil, cutEdge(t.ifi, t.succ))) || !P.PathExists(anc, t.ifi, an.Is(st), nil, cutEdge(t.ifi, 1-t.succ)) {
+									all = false
+								}
+							}
+							_ = aq
+							if all {
+								ok, why = true, "the closure is created only after "+an.FuncName(anc)+" established Kind() == reflect."+a
+							}
+						}
+					}
+				}
+				// the same for a variable kept in a register: a phi of the zero Value and validated values
+				if ph, isPh := recv.(*ssa.Phi); !ok && isPh {
+					good := true
+					hasZero := false
+					for i, e := range ph.Edges {
+						if cz, isC := e.(*ssa.Const); isC && cz.Value == nil {
+							hasZero = true
+							continue
+						}
+						ek := key(e, 0)
+						found := false
+						pred := ph.Block().Preds[i]
+						for _, t := range tests {
+							if t.key != ek {
+								continue
+							}
+							for _, a := range allowed {
+								if a == t.kind && q.onlyViaEdge(pred.Instrs[len(pred.Instrs)-1], t.ifi, t.succ) {
+									found = true
+								}
+							}
+						}
+						if !found {
+							good = false
+						}
+					}
+					zero := !hasZero
+					zIfs, zNegs := P.IfsOn(fn, func(cond ssa.Value) bool {
+						b, okb := cond.(*ssa.BinOp)
+						if !okb || (b.Op != token.EQL && b.Op != token.NEQ) {
+							return false
+						}
+						return either(b, isVal(ph), func(v ssa.Value) bool { cz, isc := v.(*ssa.Const); return isc && cz.Value == nil })
+					})
+					for i, zi := range zIfs {
+						nz := 0
+						if zNegs[i] {
+							nz = 1
+						}
+						if stripNotV(zi.Cond).(*ssa.BinOp).Op == token.EQL {
+							nz = 1 - nz
+						}
+						if q.onlyViaEdge(in, zi, nz) {
+							zero = true
+						}
+					}
+					// ... or by IsValid()
+					vIfs, vNegs := P.IfsOn(fn, func(cond ssa.Value) bool {
+						call, isC := cond.(*ssa.Call)
+						return isC && P.CalleeName(&call.Call) == "(reflect.Value).IsValid" && call.Call.Args[0] == ssa.Value(ph)
+					})
+					for i, vi := range vIfs {
+						ts := 0
+						if vNegs[i] {
+							ts = 1
+						}
+						if q.onlyViaEdge(in, vi, ts) {
+							zero = true
+						}
+					}
+					if good && zero {
+						ok, why = true, "the variable is either the zero Value (excluded by the comparison with reflect.Value{}) or a value whose Kind() was established"
+					}
+				}
+				// a local reflect.Value variable that is either zero or a validated value, used only where it is not zero
+				if ld, isL := isLoad(recv); !ok && isL {
+					if cell := P.CellOf(ld.X); cell != nil && cell.Parent() == fn {
+						sts := P.CellStores(cell)
+						good := len(sts) > 0
+						for _, st := range sts {
+							sk := key(st.Val, 0)
+							found := false
+							for _, t := range tests {
+								if t.key != sk {
+									continue
+								}
+								for _, a := range allowed {
+									if a == t.kind && !P.PathExists(fn, st, an.Is(in), nil, cutEdge(t.ifi, t.succ)) {
+										found = true
+									}
+								}
+							}
+							if !found {
+								good = false
+							}
+						}
+						// the zero value (no store executed) is excluded by a comparison with reflect.Value{}
+						zIfs, zNegs := P.IfsOn(fn, func(cond ssa.Value) bool {
+							b, okb := cond.(*ssa.BinOp)
+							if !okb || (b.Op != token.EQL && b.Op != token.NEQ) {
+								return false
+							}
+							isC := func(v ssa.Value) bool {
+								l, isl := isLoad(v)
+								return isl && P.CellOf(l.X) == cell
+							}
+							isZ := func(v ssa.Value) bool {
+								cz, isc := v.(*ssa.Const)
+								return isc && cz.Value == nil
+							}
+							return either(b, isC, isZ)
+						})
+						zero := false
+						var stI []ssa.Instruction
+						for _, st := range sts {
+							stI = append(stI, st)
+						}
+						for i, zi := range zIfs {
+							nz := 0 // successor taken when the variable is not the zero Value
+							if zNegs[i] {
+								nz = 1
+							}
+							if stripNotV(zi.Cond).(*ssa.BinOp).Op == token.EQL {
+								nz = 1 - nz
+							}
+							if !P.PathExists(fn, nil, an.Is(in), an.In(stI), cutEdge(zi, nz)) {
+								zero = true
+							}
+						}
+						if good && zero {
+							ok, why = true, "the variable is either the zero Value (excluded by the comparison with reflect.Value{}) or a value whose Kind() was established"
+						}
+					}
+				}
+				// a parameter of an unexported function: every call site passes an exempt receiver
+				if prm, isP := recv.(*ssa.Parameter); !ok && isP && fn.Object() != nil && !fn.Object().Exported() {
+					sites, good := 0, true
+					for _, g := range P.Funcs {
+						for _, cs := range P.CallsTo(g, an.FuncName(fn)) {
+							sites++
+							idx := -1
+							for i, pp := range fn.Params {
+								if pp == prm {
+									idx = i
+								}
+							}
+							if idx < 0 || rkExempt[key(an.CallCommonOf(cs).Args[idx], 0)] == "" {
+								good = false
+							}
+						}
+					}
+					if sites > 0 && good {
+						ok, why = true, "every caller passes callConfig.this"
+					}
+				}
+			}
+			// the variadic parameter's type is a slice by definition of IsVariadic
+			if !ok && name == "invoke:reflect.Type.Elem" && an.FuncName(fn) == "resolveArgs" {
+				vifs, vnegs := P.IfsOn(fn, func(cond ssa.Value) bool { return P.IsCallResult(cond, "invoke:reflect.Type.IsVariadic", 0) })
+				for i, vi := range vifs {
+					ts := 0
+					if vnegs[i] {
+						ts = 1
+					}
+					if q.onlyViaEdge(in, vi, ts) {
+						ok, why = true, "reached only through IsVariadic(): the last parameter of a variadic function is a slice"
+					}
+				}
+			}
+			n++
+			q.add("RK", strings.TrimPrefix(strings.TrimPrefix(name, "invoke:"), "(")+" on "+rkDisplay.ReplaceAllString(k, "a local value"), ok,
+				pickS(ok, why, name+" panics unless its receiver's kind is one of "+strings.Join(allowed, "/")+", and no Kind() comparison on the same reflect expression guards this call (nor does the receiver's kind follow from its construction)"), in)
+		}
+	}
+	// premise of the callConfig.this exemption
+	if q := c.F("Call"); q.ok() {
+		okw := true
+		for _, fn := range P.Funcs {
+			for _, st := range an.FieldStores(fn, "callConfig.this") {
+				if an.FuncName(fn) != "Call" {
+					okw = false
+				}
+				_ = st
+			}
+		}
+		// inside Call the config is built with this: caller.Type() and checked before any option runs
+		ksrc := false
+		for _, in := range an.AllInstrs(q.fn, func(in ssa.Instruction) bool { _, ok := in.(*ssa.Store); return ok }) {
+			if an.FieldOfAddr(in.(*ssa.Store).Addr) == "callConfig.this" && P.IsCallResult(in.(*ssa.Store).Val, "invoke:bigbuff.Callable.Type", 0) {
+				ksrc = true
+			}
+		}
+		// ... and the options (which rely on it) run only where Call established Kind() == Func
+		okk := false
+		for _, t := range collect(q.fn) {
+			if t.key == "F:callConfig.this" && t.kind == "Func" {
+				okk = true
+				for _, in := range an.AllInstrs(q.fn, func(in ssa.Instruction) bool {
+					call, ok := in.(*ssa.Call)
+					return ok && (call.Call.IsInvoke() && call.Call.Method.Name() == "Call" || !call.Call.IsInvoke() && call.Call.StaticCallee() == nil && len(call.Call.Args) == 1)
+				}) {
+					if _, isB := in.(*ssa.Call).Call.Value.(*ssa.Builtin); isB {
+						continue
+					}
+					if !q.onlyViaEdge(in, t.ifi, t.succ) {
+						okk = false
+					}
+				}
+			}
+		}
+		q.add("PATH", "options and the invocation run only for a callable of kind Func", okk, pickS(okk, "option(config) and caller.Call are reached only through config.this.Kind() == reflect.Func", "Call proceeds with a callable type that is not a func (the options and resolveArgs would panic in reflect)"))
+		q.add("WR", "callConfig.this is the callable's type, set only by Call", okw && ksrc, pickS(okw && ksrc, "one store, in Call, of caller.Type()", "callConfig.this is written elsewhere or not from caller.Type()"))
+	}
+	c.C.Add("RK", "callable.go", "kind-restricted reflect calls found", n >= 12, fmt.Sprintf("%d calls checked", n))
+}
+
+func valueParent(v ssa.Value) *ssa.Function {
+	if in, ok := v.(ssa.Instruction); ok {
+		return in.Parent()
+	}
+	return v.Parent()
+}
+
+var rkDisplay = regexp.MustCompile(`t[0-9]+@[^)]*`)
